@@ -122,6 +122,23 @@ def _sub(env):
     return sub
 
 
+def let_chain(c):
+    """the `let` links of an if-condition: `let P = e`, or an `&&` chain containing such links (left to right)."""
+    c = H.peel(c)
+    if H.kind(c) == "LetExpr":
+        return [c]
+    if H.kind(c) == "Binary" and c.get("op") == "And":
+        return let_chain(c["a"]) + let_chain(c["b"])
+    return []
+
+
+def conjuncts(c):
+    c = H.peel(c)
+    if H.kind(c) == "Binary" and c.get("op") == "And":
+        return conjuncts(c["a"]) + conjuncts(c["b"])
+    return [c]
+
+
 def sexpr(n, env=None, depth=0):
     """Canonical S-expression of an expression: resolved callees, provenance names for locals."""
     if n is None:
@@ -181,14 +198,16 @@ def sexpr(n, env=None, depth=0):
     if k == "Match" and H.is_try(n):
         return "(? %s)" % sexpr(H.try_inner(n), env, depth + 1)
     if k == "If":
-        c = H.peel(n["c"])
         tenv = env
-        if H.kind(c) == "LetExpr":
-            base = sexpr(c["init"], env, depth + 1)
+        lets = let_chain(n["c"])
+        if lets and env is not None:
             tenv = _sub(env)
-            for l, p in pat_paths(c["pat"]).items():
-                tenv.names[l] = "%s/%s" % (base, p) if p else base
-        return "(if %s %s %s)" % (sexpr(n["c"], env, depth + 1), sexpr(n["t"], tenv, depth + 1), sexpr(n.get("e"), env, depth + 1))
+            for c in lets:
+                # a later link of an `&&` chain sees the bindings of the earlier ones
+                base = sexpr(c["init"], tenv, depth + 1)
+                for l, p in pat_paths(c["pat"]).items():
+                    tenv.names[l] = "%s/%s" % (base, p) if p else base
+        return "(if %s %s %s)" % (sexpr(n["c"], tenv, depth + 1), sexpr(n["t"], tenv, depth + 1), sexpr(n.get("e"), env, depth + 1))
     if k == "LetExpr":
         return "(let %s %s)" % (pat_shape(n["pat"]), sexpr(n["init"], env, depth + 1))
     if k == "Closure":
